@@ -222,6 +222,9 @@ def run(ctx):
 
     model = ctx.driver.ask(ops)
     kit.compare(res, ops, impl, model)
+    # ---- ids of what comes back from the store (freely built blocks the store can hold)
+    from . import c08
+    c08.arbitrary_blocks(ctx, res)
     res.rule = ("every byte string of length ≤ %d to the VLQ decoder, integers 0..%d and boundary/random ones to 2^71, "
                 "random structured values of every consensus type (built with the repository's constructors) with "
                 "trailing data, %d structural mutants of each, all 256 tag bytes of the signature/public-key unions, "
